@@ -44,6 +44,8 @@ class FakeSock:
         self.sscript = [e for e in sscript]
         self.wire = b''
         self.clock = None           # FakeClock of a clk=1 case: told about every socket event
+        self.w_how = []             # send script: how each 'W' was used up, in order: 'S' the socket raised
+                                    # socket.timeout for it, 'C' a deadline check of the code fired
 
     def _io_done(self, script):
         if self.clock is not None:
@@ -97,6 +99,8 @@ class FakeSock:
         ev = s.pop(0)
         if ev == 'T' or ev == 'W':
             self._fault(ev)
+            if ev == 'W':
+                self.w_how.append('S')
             raise socket.timeout()
         if ev == 'E':
             raise BlockingIOError(11, 'Resource temporarily unavailable')
@@ -145,10 +149,12 @@ class FakeClock:
     def consumed_by_socket(self):
         self.armed = None
 
-    def end_call(self, result):
+    def end_call(self, result, fs=None):
         sc = self.armed
         if sc is not None and result == 'timeout' and sc and sc[0] == 'W':
             sc.pop(0)
+            if fs is not None and sc is fs.sscript:
+                fs.w_how.append('C')
         self.armed = None
 
     # -- the `time` module API
@@ -1008,6 +1014,48 @@ class C12(Property):
             return 'F%s:%d' % (op[1], op[2])        # dx only
         return 'f'
 
+    # ---- what the statement leaves free, resolved by observation before the model is asked
+    # (1) WHERE on the send side the code compares the clock with its deadline (after every sock.send? also after
+    #     the one that emptied the buffer?) - the statement quantifies over all placements of timeouts, the model
+    #     has the check after every sock.send.  A 'W' of a send script reaches the model as a deadline event
+    #     (`w`, SEv.clock) only if a deadline check of the code really fired for it; a 'W' that the socket turned
+    #     into socket.timeout (or that nothing used up) reaches it as `t` - on the verified code the two scripts
+    #     are indistinguishable (sendLoop treats a leading .clock and a leading .timeout alike).
+    # (2) whether recv / send REFUSE non-zero flags (ValueError) or take them: a call that was not refused
+    #     reaches the model as the plain call.
+    def _hint(self, case):
+        cache = self.__dict__.setdefault('_hints', {})
+        if len(cache) > 4000:
+            cache.clear()
+        ent = cache.get(id(case))
+        if ent is None or ent[0] is not case:
+            ent = (case, {})
+            cache[id(case)] = ent
+        return ent[1]
+
+    def _hints_for(self, case):
+        h = self._hint(case)
+        if 'w_how' not in h:
+            self.impl(case)         # line() asked before impl() ran on this object (replay, shrinking)
+            h = self._hint(case)
+        return h
+
+    def _sscript_tok_observed(self, case, key):
+        script = case[key]
+        if 'W' not in script:
+            return self._sscript_tok(script)
+        how = self._hints_for(case).get('w_how', [])
+        out, wi = [], 0
+        for e in script:
+            if e == 'W':
+                out.append('w' if wi < len(how) and how[wi] == 'C' else 't')
+                wi += 1
+            elif is_to(e):
+                out.append({'T': 't', 'E': 'e'}[e])
+            else:
+                out.append('a%d' % e[1])
+        return ','.join(out) or '-'
+
     def line(self, case):
         k = case['k']
         if k == 'rx':
@@ -1016,14 +1064,21 @@ class C12(Property):
             return ' '.join(['rx', str(case['rs']), str(case['ms']), str(case['retry']),
                              self._script_tok(case['script'])] + [self._rx_tok(op) for op in case['ops']])
         if k == 'tx':
-            return ' '.join(['tx', self._sscript_tok(case['script'])] + [self._tx_tok(op) for op in case['ops']])
+            return ' '.join(['tx', self._sscript_tok_observed(case, 'script')] +
+                            [self._tx_tok(op) for op in case['ops']])
         if k == 'dx':
             if case['rs'] < 1:
                 return None
+            flagged = any(op[0] in ('rf', 'sf', 'saf') and op[2] != 0 for _, op in case['ops'])
+            refused = set(self._hints_for(case).get('refused', [])) if flagged else set()
+
+            def tok(i, side, op):
+                if op[0] in ('rf', 'sf', 'saf') and op[2] != 0 and i not in refused:
+                    op = ['r', op[1]] if op[0] == 'rf' else ['s', op[1]]       # flags taken: the plain call
+                return side + (self._rx_tok(op) if side == 'R' else self._tx_tok(op))
             return ' '.join(['dx', str(case['rs']), str(case['ms']), self._script_tok(case['rscript']),
-                             self._sscript_tok(case['sscript'])] +
-                            [side + (self._rx_tok(op) if side == 'R' else self._tx_tok(op))
-                             for side, op in case['ops']])
+                             self._sscript_tok_observed(case, 'sscript')] +
+                            [tok(i, side, op) for i, (side, op) in enumerate(case['ops'])])
         if k == 'ns':
             return ' '.join(['ns', str(case['ms']), self._sscript_tok(case['wscript']),
                              ','.join(map(str, case['cuts'])) or '-', str(case['nreads']), self._rcfg_tok(case)]
@@ -1098,7 +1153,7 @@ class C12(Property):
                 rec['r'] = 'valueerror'
         clock.end_call(rec['r'])
 
-    def _do_tx(self, bs, op, rec, clock, clk):
+    def _do_tx(self, bs, op, rec, clock, clk, fs=None):
         """one send-side public call on `bs`"""
         clock.begin_call()
         try:
@@ -1122,7 +1177,7 @@ class C12(Property):
             rec['r'] = EXC.get(exc_name(e), 'exc:' + exc_name(e))
             if op[0] in ('sf', 'saf') and op[2] != 0 and exc_name(e) == 'ValueError':
                 rec['r'] = 'valueerror'
-        clock.end_call(rec['r'])
+        clock.end_call(rec['r'], fs)
 
     @staticmethod
     def _tmo(case):
@@ -1174,11 +1229,12 @@ class C12(Property):
         for i, op in enumerate(case['ops']):
             yield
             rec = {'op': i}
-            self._do_tx(bs, op, rec, clock, clk)
+            self._do_tx(bs, op, rec, clock, clk, fs)
             rec['sbuf'] = hx(bytes(bs.getsendbuffer()))
             rec['wire'] = hx(fs.wire)
             rec['left'] = sum(1 for e in fs.sscript if is_to(e))
             out.append(rec)
+            self._hint(case)['w_how'] = list(fs.w_how)
 
     def run_duo(self, case):
         """two sockets, calls interleaved as `order` says (then whatever is left of each)"""
@@ -1222,7 +1278,7 @@ class C12(Property):
             if side == 'R':
                 self._do_rx(bs, op, rec, clock, clk, case['ms'])
             else:
-                self._do_tx(bs, op, rec, clock, clk)
+                self._do_tx(bs, op, rec, clock, clk, fs)
             rb = bs.getrecvbuffer()
             rec['rbuf'] = hx(bytes(rb)) if isinstance(rb, (bytes, bytearray)) else 'nonbytes'
             rec['und'] = hx(fs.undelivered())
@@ -1230,6 +1286,9 @@ class C12(Property):
             rec['wire'] = hx(fs.wire)
             rec['left'] = sum(1 for e in fs.sscript if is_to(e))
             out.append(rec)
+        h = self._hint(case)
+        h['w_how'] = list(fs.w_how)
+        h['refused'] = [r['op'] for r in out if r['r'] == 'valueerror']
         return out
 
     @classmethod
